@@ -6,6 +6,34 @@ Open Scope string_scope.
 Open Scope list_scope.
 Open Scope N_scope.
 
+Section CV.
+Variable cv : variant.
+Local Notation is_simple_id := (SmtSer.is_simple_id cv) (only parsing).
+Local Notation escape_id := (SmtSer.escape_id cv) (only parsing).
+Local Notation ser := (SmtSer.ser cv) (only parsing).
+Local Notation ser_cmd := (SmtSer.ser_cmd cv) (only parsing).
+Local Notation name_ok := (SmtSer.name_ok cv) (only parsing).
+Local Notation declared := (SmtSer.declared cv) (only parsing).
+Local Notation symbols_declared := (SmtSer.symbols_declared cv) (only parsing).
+Local Notation is_simple_id_loop := (SmtSerLemmas.is_simple_id_loop cv) (only parsing).
+Local Notation is_simple_id_chars := (SmtSerLemmas.is_simple_id_chars cv) (only parsing).
+Local Notation is_simple_id_first := (SmtSerLemmas.is_simple_id_first cv) (only parsing).
+Local Notation escape_sound_gen := (SmtSerLemmas.escape_sound_gen cv) (only parsing).
+Local Notation escape_sound_lemma := (SmtSerLemmas.escape_sound_lemma cv) (only parsing).
+Local Notation good := (SmtSerProofs.good cv) (only parsing).
+Local Notation symbols_declared_app := (SmtSerProofs.symbols_declared_app cv) (only parsing).
+Local Notation name_ok_facts := (SmtSerProofs.name_ok_facts cv) (only parsing).
+Local Notation symbol_good := (SmtSerProofs.symbol_good cv) (only parsing).
+Local Notation ser_core := (SmtSerProofs.ser_core cv) (only parsing).
+Local Notation ser_eq := (SmtSerProofs.ser_eq cv) (only parsing).
+Local Notation core_good := (SmtSerProofs.core_good cv) (only parsing).
+Local Notation wrap_good_e := (SmtSerProofs.wrap_good_e cv) (only parsing).
+Local Notation ser_good := (SmtSerProofs.ser_good cv) (only parsing).
+Local Notation ser_sorted_sound_lemma := (SmtSerProofs.ser_sorted_sound_lemma cv) (only parsing).
+Local Notation name_ok_intro := (SmtSerProofs.name_ok_intro cv) (only parsing).
+Local Notation noop_slice_latent := (SmtSerProofs.noop_slice_latent cv) (only parsing).
+
+
 Definition expr_ok (G : sctx) (e : expr) : Prop :=
   wt e = true /\ built e = true /\ symbols_declared G e = true.
 
@@ -37,7 +65,7 @@ Definition cmd_post (G : sctx) (c : smt_cmd) : sctx :=
 
 Lemma name_ok_binder n : name_ok n = true -> binder_name (escape_id n) = Some n.
 Proof.
-  unfold name_ok, binder_name. destruct (symbol_name (escape_id n)) as [n'|]; [|discriminate].
+  unfold SmtSer.name_ok, binder_name. destruct (symbol_name (escape_id n)) as [n'|]; [|discriminate].
   rewrite andb_true_iff, negb_true_iff. intros [He Ht]. apply String.eqb_eq in He. subst n'. now rewrite Ht.
 Qed.
 
@@ -89,6 +117,10 @@ Lemma cc_setoption G k v :
   cmd_check G (SxList [SxAtom "set-option"; SxAtom k; v]) = if is_keyword k && is_attr_value v then Some G else None.
 Proof. reflexivity. Qed.
 
+Lemma cc_setinfo G k v :
+  cmd_check G (SxList [SxAtom "set-info"; SxAtom k; v]) = if is_keyword k && is_attr_value v then Some G else None.
+Proof. reflexivity. Qed.
+
 Theorem ser_cmd_wf_lemma :
   forall (G : sctx) (c : smt_cmd), cmd_pre G c ->
     exists t, ser_cmd c = Ok t /\ cmd_check G t = Some (cmd_post G c).
@@ -100,7 +132,8 @@ Proof.
   - destruct Hpre as (Hk & Hc & Hr). eexists; split; [reflexivity|].
     rewrite cc_setoption, Hk. unfold is_attr_value. rewrite (escape_sound_lemma v Hc Hr). now rewrite orb_true_r.
   - destruct Hpre as (Hk & Hc & Hr). eexists; split; [reflexivity|].
-    rewrite cc_setoption, Hk. unfold is_attr_value. rewrite (escape_sound_lemma v Hc Hr). now rewrite orb_true_r.
+    destruct cv; [rewrite cc_setoption | rewrite cc_setinfo]; rewrite Hk; unfold is_attr_value;
+      rewrite (SmtSerLemmas.escape_sound_lemma _ v Hc Hr); now rewrite orb_true_r.
   - destruct Hpre as (Hok & Ht). eexists; split; [reflexivity|].
     rewrite cc_assert, (expr_sort G e Hok), Ht. reflexivity.
   - unfold fresh_sym in Hpre. unfold ser_cmd. destruct (symbol_name_of s) as [n|] eqn:En; [|contradiction].
@@ -131,18 +164,20 @@ Lemma assumption_literal n :
   is_prop_literal (ser (BVNot (BVSymbol n 1) 1) false) = true.
 Proof.
   intros Hn. destruct (name_ok_facts n Hn) as (Hs & _).
-  cbn [ser wrap is_1bit type_of produces_bv consumes_bv]. change (1 =? 1) with true. cbn [andb negb wrap].
+  cbn [SmtSer.ser wrap is_1bit type_of produces_bv consumes_bv]. change (1 =? 1) with true. cbn [andb negb wrap].
   unfold is_prop_literal. rewrite Hs. split; reflexivity.
 Qed.
 
-(** ** recorded defect 1: SetInfo is written with the command name of SetOption *)
+End CV.
+
+(** ** recorded defect 1 (current code): SetInfo is written with the command name of SetOption *)
 
 Theorem cmd_head_refuted :
-  exists c t, ser_cmd c = Ok t /\ sx_head t <> Some (cmd_std_head c).
+  exists c t, ser_cmd Cur c = Ok t /\ sx_head t <> Some (cmd_std_head c).
 Proof. exists (CSetInfo "status" "sat"). eexists. split; [reflexivity|]. vm_compute. discriminate. Qed.
 
 Theorem cmd_head_outside_known :
-  forall c t, (forall k v, c <> CSetInfo k v) -> ser_cmd c = Ok t -> sx_head t = Some (cmd_std_head c).
+  forall c t, (forall k v, c <> CSetInfo k v) -> ser_cmd Cur c = Ok t -> sx_head t = Some (cmd_std_head c).
 Proof.
   intros c t Hk H. destruct c; cbn [ser_cmd] in H;
     try (inversion H; subst; reflexivity).
@@ -151,14 +186,29 @@ Proof.
   - destruct (symbol_name_of sym); inversion H; subst; reflexivity.
 Qed.
 
-(** ** recorded defect 2: a reserved word is written without quotes, although the quoted
-    form would be a symbol *)
+(** repaired code: every command carries the name SMT-LIB gives it *)
+Theorem cmd_head_fix :
+  forall c t, ser_cmd Fix c = Ok t -> sx_head t = Some (cmd_std_head c).
+Proof.
+  intros c t H. destruct c; cbn [ser_cmd] in H;
+    try (inversion H; subst; reflexivity).
+  - destruct (symbol_name_of sym); inversion H; subst; reflexivity.
+  - destruct (symbol_name_of sym); inversion H; subst; reflexivity.
+Qed.
+
+(** ** recorded defect 2 (current code): a reserved word is written without quotes, although
+    the quoted form would be a symbol *)
 
 Theorem escape_reserved_refuted :
-  exists n, name_chars_ok n = true /\ symbol_name (escape_id n) = None /\
+  exists n, name_chars_ok n = true /\ symbol_name (escape_id Cur n) = None /\
             symbol_name (String.append "|" (String.append n "|")) = Some n.
 Proof. exists "push". vm_compute. repeat split. Qed.
 
 Theorem escape_sound_outside_known :
-  forall n, name_chars_ok n = true -> is_reserved n = false -> symbol_name (escape_id n) = Some n.
-Proof. exact escape_sound_lemma. Qed.
+  forall n, name_chars_ok n = true -> is_reserved n = false -> symbol_name (escape_id Cur n) = Some n.
+Proof. exact (escape_sound_lemma Cur). Qed.
+
+(** repaired code: [escape_sound] without exception *)
+Theorem escape_sound_fix_lemma :
+  forall n, name_chars_ok n = true -> symbol_name (escape_id Fix n) = Some n.
+Proof. exact escape_sound_fix. Qed.
